@@ -13,7 +13,9 @@ pool from mc.engine.ctxreg, optional helpers, and one entry function `f`.
                          local; arms read the tested variable through exact and rounded ops
   L  loops               statically known lengths (range(k), list literal) -> unrolling; symbolic
                          lengths (list argument, while) -> fixpoint + widening; analysed with
-                         loop_iter_limit in {1, 2, 10}
+                         loop_iter_limit in {1, 2, 10}; L3: a value that GROWS per iteration stored
+                         through one alias of a list (same depth `ys = xs`, row `row = xss[i]`, tuple
+                         field) and read through the other alias inside and after the loop
   H  helper calls        callees with one/two returns, own pinned context, tuple results, a loop;
                          nested calls; the callee activations are judged against by_call
   M  miscellany          literal sets and joins, min/max, sum, inf/nan constants, lists, element
@@ -279,6 +281,54 @@ def family_L(tier: str) -> Iterator[Prog]:
     ]
     for lines, ret, args, fix in extra:
         yield make('L', lines + [ret], args, 'L2', fixpoint=fix)
+    yield from _alias_store_loops(quick)
+
+
+# a list is one object: a store through one name inside a loop must widen every alias, and must keep
+# widening it when the stored value's format grows from one body visit to the next
+L3_ALIAS = [  # (set-up lines, name stored through with index text, read through the other alias)
+    (['xs = [x, 2]', 'ys = xs'], 'ys[0]', 'xs[0]'),
+    (['xs = [x, 2]', 'ys = xs'], 'xs[1]', 'ys[1]'),
+    (['xss = [[x, 1], [2, 3]]', 'row = xss[0]'], 'row[0]', 'xss[0][0]'),
+    (['xss = [[x, 1], [2, 3]]', 'row = xss[1]'], 'xss[1][1]', 'row[1]'),
+    (['xs = [x, 2]', 'ys = xs', 'zs = ys'], 'zs[0]', 'xs[0]'),
+    (['xs = [x, 2]', 't0 = (xs, xs)', 'ys = fst(t0)'], 'ys[0]', 'xs[0]'),
+]
+L3_GROW = [  # (initial value, growth statement of the stored scalar t, under REAL?)
+    ('1', 't = t + 1', True), ('x', 't = t + t', True), ('x', 't = t * t', True), ('1', 't = t * 2', True),
+    ('x', 't = t - 1', True), ('x', 't = t + 0.25', False),
+]
+
+
+def _alias_store_loops(quick: bool):
+    hdrs = [(['for e in range(3):'], set(), False), (['for e in xs0:'], {'xs'}, True), (['k = 0', 'while k < n:'], {'n'}, True)]
+    if not quick:
+        hdrs += [(['for e in [x, x]:'], set(), False), (['for e in range(1):'], set(), False)]
+    aliases = L3_ALIAS[:4] if quick else L3_ALIAS
+    grows = L3_GROW[:3] if quick else L3_GROW
+    for setup, store, read in aliases:
+        for init, grow, real in grows:
+            for hdr, extra, fix in hdrs:
+                for order in ('store-first', 'grow-first'):
+                    if quick and order == 'grow-first' and grow != 't = t + 1':
+                        continue
+                    g = wrap([grow], 'fp.REAL' if real else None)
+                    body = ([f'{store} = t'] + g) if order == 'store-first' else (g + [f'{store} = t'])
+                    body = body + [f'm = {read}']
+                    if hdr[-1] == 'while k < n:':
+                        body = body + ['with fp.INTEGER:', '    k = k + 1']
+                    lines = [ln.replace('xs0', 'xs') for ln in hdr]
+                    pre = list(setup)
+                    if 'xs' in extra:
+                        # the symbolic-length iterable is the argument; the aliased list gets other names
+                        pre = [ln.replace('xss', 'wss').replace('xs', 'ws') for ln in pre]
+                        body = [ln.replace('xss', 'wss').replace('xs', 'ws') for ln in body]
+                        rd = read.replace('xss', 'wss').replace('xs', 'ws')
+                    else:
+                        rd = read
+                    prog = pre + [f't = {init}', f'm = {rd}'] + lines[:-1] + [lines[-1]] + indent(body) + [f'r = {rd}']
+                    kind = 'L3-row' if 'row' in store + read else 'L3-tuple' if 'fst' in ''.join(setup) else 'L3-alias'
+                    yield make('L', prog + ['return (r, m, t)'], {'x'} | extra, kind, fixpoint=fix)
 
 
 # ----------------------------------------------------------------------
